@@ -179,27 +179,37 @@ func (l *L) Addmf(x int) int {
 	return x*7 + 1016
 }
 
-// ---- callbacks: class cb<k> returns 100000+k
+// ---- callbacks: class cb<k> returns 100000+k when it receives exactly the argument the probe passes, 100050+k otherwise
 
-func K0(x int) int { return 100000 }
-func K1(x int) int { return 100001 }
-func K2(x int) int { return 100002 }
-func K3(x int) int { return 100003 }
+// ProbeArg is what the probe passes to every target.
+const ProbeArg = 7
 
-func KM0(t *T, x int) int { return 100000 }
-func KM1(t *T, x int) int { return 100001 }
-func KM2(t *T, x int) int { return 100002 }
-func KM3(t *T, x int) int { return 100003 }
+func cbv(x, k int) int {
+	if x == ProbeArg {
+		return 100000 + k
+	}
+	return 100050 + k
+}
 
-func KL0(l *L, x int) int { return 100000 }
-func KL1(l *L, x int) int { return 100001 }
-func KL2(l *L, x int) int { return 100002 }
-func KL3(l *L, x int) int { return 100003 }
+func K0(x int) int { return cbv(int(x), 0) }
+func K1(x int) int { return cbv(int(x), 1) }
+func K2(x int) int { return cbv(int(x), 2) }
+func K3(x int) int { return cbv(int(x), 3) }
 
-func KG0(x int64) int64 { return 100000 }
-func KG1(x int64) int64 { return 100001 }
-func KG2(x int64) int64 { return 100002 }
-func KG3(x int64) int64 { return 100003 }
+func KM0(t *T, x int) int { return cbv(int(x), 0) }
+func KM1(t *T, x int) int { return cbv(int(x), 1) }
+func KM2(t *T, x int) int { return cbv(int(x), 2) }
+func KM3(t *T, x int) int { return cbv(int(x), 3) }
+
+func KL0(l *L, x int) int { return cbv(int(x), 0) }
+func KL1(l *L, x int) int { return cbv(int(x), 1) }
+func KL2(l *L, x int) int { return cbv(int(x), 2) }
+func KL3(l *L, x int) int { return cbv(int(x), 3) }
+
+func KG0(x int64) int64 { return int64(cbv(int(x), 0)) }
+func KG1(x int64) int64 { return int64(cbv(int(x), 1)) }
+func KG2(x int64) int64 { return int64(cbv(int(x), 2)) }
+func KG3(x int64) int64 { return int64(cbv(int(x), 3)) }
 
 // KBad has a signature no target has: goom's signature check must reject it before anything is patched.
 func KBad() int { return 100099 }
